@@ -184,6 +184,15 @@ func OneOfAllSpecs() []*Spec {
 			{KeyS: "a", KeyI: 1, Type: a}, {KeyS: "b", KeyI: 2, Type: b},
 		}})
 	}
+	// a struct-mapped member under the zero value of the key type (members of native struct values are found by type,
+	// not by a discriminator field)
+	for _, k := range []Kind{KOneOfStr, KOneOfInt} {
+		sa := ShapeSpecs()[0].Clone()
+		sa.ID = "SAzero"
+		out = append(out, &Spec{Kind: k, Discriminator: "kind", Members: []Member{
+			{KeyS: "", KeyI: 0, Type: sa}, {KeyS: "b", KeyI: 2, Type: MapObjB("B")},
+		}})
+	}
 	// a member under the zero value of the key type (0 / the empty string): present, not missing
 	for _, k := range []Kind{KOneOfStr, KOneOfInt} {
 		for _, inl := range []bool{false, true} {
@@ -322,6 +331,11 @@ func Depth1() []*Spec {
 	out = append(out, MapObjA("A"), MapObjB("B"))
 	out = append(out, &Spec{Kind: KObject, ID: "One", Props: []Prop{{Name: "only", Type: &Spec{Kind: KInt, Min: I64(0)}, Required: true}}})
 	out = append(out, &Spec{Kind: KObject, ID: "Dis", Props: []Prop{{Name: "on", Type: &Spec{Kind: KString}}, {Name: "off", Type: &Spec{Kind: KString}, Disabled: true}}})
+	out = append(out, &Spec{Kind: KObject, ID: "Dis2", Props: []Prop{
+		{Name: "on", Type: &Spec{Kind: KString}},
+		{Name: "off", Type: &Spec{Kind: KString}, Disabled: true, DisabledNoReason: true},
+		{Name: "offd", Type: &Spec{Kind: KString}, Disabled: true, DisabledNoReason: true, Default: Str("\"x\"")},
+	}})
 	out = append(out, &Spec{Kind: KObject, ID: "Empty"})
 	out = append(out, &Spec{Kind: KObject, ID: "Enums", Props: []Prop{
 		{Name: "ei", Type: &Spec{Kind: KIntEnum, EnumI: []int64{1, 2}}, Required: true},
@@ -343,7 +357,12 @@ func Depth1() []*Spec {
 		{Name: "user", Type: &Spec{Kind: KString}, RequiredIfNot: []string{"lvl"}},
 	}})
 	out = append(out, RecursiveShapeSpecs()...) // struct-mapped objects that reach themselves through pointer fields
-	out = append(out, DeepShapeSpec())          // three levels of by-value struct nesting with defaults at every level
+	out = append(out, &Spec{Kind: KObject, ID: "Alt", Props: []Prop{
+		{Name: "token", Type: &Spec{Kind: KString, Min: I64(1)}, RequiredIfNot: []string{"user", "cert"}},
+		{Name: "user", Type: &Spec{Kind: KString}},
+		{Name: "cert", Type: &Spec{Kind: KString}},
+	}})
+	out = append(out, DeepShapeSpec()) // three levels of by-value struct nesting with defaults at every level
 	out = append(out, OneOfAllSpecs()...)
 	return out
 }
